@@ -28,9 +28,11 @@ class BoundaryRule:
     def is_satisfied(self) -> bool:
         return len(self.tags) == 0
 
-    def remove_tag(self, tag: str) -> None:
+    def remove_tag(self, tag: str) -> bool:
         if tag in self.tags:
             self.tags.remove(tag)
+            return True
+        return False
 
 
 class ConnectorPort(Port):
@@ -103,8 +105,8 @@ class InterWorkflowPort(Port):
         for token in [
             t for t in self.token_list if not isinstance(t, TerminationToken)
         ]:
-            boundary.remove_tag(token.tag)
-            if boundary.is_satisfied():
+            # A rule fires once, on the token that completes its tag set
+            if boundary.remove_tag(token.tag) and boundary.is_satisfied():
                 self._execute_boundary_action(boundary, token)
 
     def put(self, token: Token) -> None:
@@ -113,8 +115,8 @@ class InterWorkflowPort(Port):
         else:
             matched_self = False
             for boundary in self.boundaries:
-                boundary.remove_tag(token.tag)
-                if boundary.is_satisfied():
+                # A rule fires once, on the token that completes its tag set
+                if boundary.remove_tag(token.tag) and boundary.is_satisfied():
                     self._execute_boundary_action(boundary, token)
                     if boundary.port is self:
                         matched_self = True
